@@ -184,6 +184,11 @@ func ToBytes(v any) ([]byte, error) {
 	case string:
 		return []byte(v), nil
 	case []byte:
+		if v == nil {
+			// a nil slice is the empty value; passed on as nil
+			// it would be stored as SQL NULL
+			return []byte{}, nil
+		}
 		return v, nil
 	}
 	return nil, ErrValueType
